@@ -350,6 +350,47 @@ def transposeEntries {α} (E : List (Entry α)) (sl : Option (Nat × Nat))
   (blockCuts csrIndptr el).flatMap fun blk =>
     (rangeOf blk).flatMap fun v => cs.flatMap fun c => piece c v
 
+/-! #### the fill pass at flat-array level
+
+The same loops with the code's addressing: one buffer per block, the group of
+one load chunk for minor index `v` written at `next_idx[v] - d0`, then
+`next_idx[v] += ct`; the block buffer written to the output at `[d0, d1)`.
+`β` is what one array cell holds (`(major, value)` pairs for the pair of
+arrays `indices` / `data`, which the code fills side by side). -/
+
+/-- numpy `buf[pos : pos + len(xs)] = xs` -/
+def writeAt {β} (buf : List β) (pos : Nat) (xs : List β) : List β :=
+  buf.take pos ++ xs ++ buf.drop (pos + xs.length)
+
+/-- `buffer[next_idx[v]-d0 : …] = group; next_idx[v] += ct` for the group of
+load chunk `c` with minor index `v` (a value absent from the chunk has the
+empty group: nothing changes) -/
+def flatStep {α β} (f : Entry α → β) (d0 : Nat) (c : List (Entry α))
+    (st : List Nat × List β) (v : Nat) : List Nat × List β :=
+  (st.1.set v (ptr st.1 v + (piece c v).length),
+   writeAt st.2 (ptr st.1 v - d0) ((piece c v).map f))
+
+/-- one load chunk inside one block: its unique values in `[r0, r1)`, ascending -/
+def flatChunk {α β} (f : Entry α → β) (blk : Nat × Nat) (d0 : Nat)
+    (st : List Nat × List β) (c : List (Entry α)) : List Nat × List β :=
+  (rangeOf blk).foldl (flatStep f d0 c) st
+
+/-- one block: zeroed buffer of `d1 - d0` cells, all load chunks, then
+`dst[d0:d1] = buffer` -/
+def flatBlock {α β} (f : Entry α → β) (z : β) (cs : List (List (Entry α))) (ip : List Nat)
+    (st : List Nat × List β) (blk : Nat × Nat) : List Nat × List β :=
+  let d0 := ptr ip blk.1
+  let d1 := ptr ip blk.2
+  let r := cs.foldl (flatChunk f blk d0) (st.1, List.replicate (d1 - d0) z)
+  (r.1, writeAt st.2 d0 r.2)
+
+/-- the whole fill pass: `next_idx = copy(csr_indptr)`, output of `nnz` cells -/
+def transposeFlat {α β} (f : Entry α → β) (z : β) (E : List (Entry α))
+    (sl : Option (Nat × Nat)) (csrIndptr : List Nat) (nnz lo el : Nat) : List β :=
+  let cs := (sliceChunks lo E).map (sliceEntries sl)
+  ((blockCuts csrIndptr el).foldl (flatBlock f z cs csrIndptr)
+    (csrIndptr, List.replicate nnz z)).2
+
 /-- chunk sizes derived from the memory budget -/
 structure Budget where
   /-- `load_chunk_size` of `_calculate_csr_indptr` -/
@@ -396,6 +437,13 @@ def transposeOnDisk {α} (M : Mat α) (indicesMax : Nat) (sl : Option (Nat × Na
   let r ← calcIndptr M.indices indicesMax sl B.loCount
   let out := transposeEntries (entriesOf M) sl r.1 B.lo B.el
   return ⟨r.1, out.map (·.major), out.map (·.val)⟩
+
+/-- `transpose_sparse_matrix_on_disk` with the flat-array fill pass -/
+def transposeOnDiskFlat {α} (zero : α) (M : Mat α) (indicesMax : Nat) (sl : Option (Nat × Nat))
+    (B : Budget) : Except SpErr (Mat α) := do
+  let r ← calcIndptr M.indices indicesMax sl B.loCount
+  let out := transposeFlat (fun e => (e.major, e.val)) (0, zero) (entriesOf M) sl r.1 r.2 B.lo B.el
+  return ⟨r.1, out.map (·.1), out.map (·.2)⟩
 
 /-- `_transpose_sparse_matrix_on_disk_v2`: the minor range is cut into
 `ceil(indices_max / n_processors)`-wide slices, each transposed on its own,
